@@ -47,6 +47,14 @@ def opList : List String → Option String
       let t := cstr t.toList
       some ((if Glob.matchGlob p t then "1" else "0") ++ (if Glob.GlobSpec p t then "1" else "0"))
     | _, _ => none
+  | ["globm", pat, s] =>
+    match parseHex pat, parseHex s with
+    | some p, some t => some (if Glob.matchGlob (cstr p.toList) (cstr t.toList) then "1" else "0")
+    | _, _ => none
+  | ["globs", pat, s] =>
+    match parseHex pat, parseHex s with
+    | some p, some t => some (if Glob.GlobSpec (cstr p.toList) (cstr t.toList) then "1" else "0")
+    | _, _ => none
   -- direct probes of single column printers (for dense numeric sweeps)
   | ["ratio", kind, c, u] =>
     match c.toNat?, u.toNat? with
